@@ -16,25 +16,13 @@ Lemma lower_nil : lower [] = [].
 Proof. reflexivity. Qed.
 Lemma kw_nil : mem_str [] keywords = false.
 Proof. vm_compute. reflexivity. Qed.
-Lemma quote_pairs_no_rp : forallb (fun p => negb (N.eqb (snd p) rp)) quote_pairs = true.
-Proof. vm_compute. reflexivity. Qed.
-
-Lemma existsb_snd_false (l : list (N * N)) (a b : N) :
-  forallb (fun p => negb (N.eqb (snd p) b)) l = true ->
-  existsb (fun p => N.eqb (fst p) a && N.eqb (snd p) b) l = false.
-Proof.
-  induction l as [|p l IH]; intros H; [reflexivity|].
-  cbn [forallb] in H. apply andb_prop in H. destruct H as [Hp Hl].
-  cbn [existsb]. rewrite (IH Hl). apply negb_true_iff in Hp. rewrite Hp.
-  rewrite andb_false_r. reflexivity.
-Qed.
-
-Lemma no_quote_rp (a : N) :
-  existsb (fun p => N.eqb (fst p) a && N.eqb (snd p) rp) quote_pairs = false.
-Proof. apply existsb_snd_false. exact quote_pairs_no_rp. Qed.
+(* the GENERATED flag: the quoted-string test is made on the word after both strips;
+   used only through this lemma, so a flip of the flag fails right here *)
+Lemma quote_on_clean : quote_test_on_clean = true.
+Proof. reflexivity. Qed.
 
 (* From here on the generated tables and [lower]/[isws] are never unfolded. *)
-#[local] Opaque lower isws keywords quote_pairs.
+#[local] Opaque lower isws keywords quote_pairs quote_test_on_clean.
 
 (* ------------------------------------------------------------------------------------------ *)
 (* [words]                                                                                      *)
@@ -119,15 +107,6 @@ Proof.
   - apply negb_true_iff in Hq. exact Hq.
 Qed.
 
-Lemma is_quoted_rp (w : str) (j : nat) : is_quoted (w ++ repeat rp (S j)) = false.
-Proof.
-  assert (E : last_cp (w ++ repeat rp (S j)) = Some rp).
-  { unfold last_cp. rewrite rev_app_distr, rev_repeat. reflexivity. }
-  remember (w ++ repeat rp (S j)) as x eqn:Ex. clear Ex.
-  unfold is_quoted. destruct x as [|a [|b l]]; try reflexivity.
-  rewrite E. apply no_quote_rp.
-Qed.
-
 (* ------------------------------------------------------------------------------------------ *)
 Section Tok.
 Variable extra : list (str * kcls).
@@ -167,12 +146,12 @@ Lemma word_tokens_eq (w : str) (nl : nat) (clean clean2 : str) (trail : nat) :
   (if mem_str (lower clean2) keywords then [kw_token (lower clean2)]
    else match clean2 with
         | [] => []
-        | _ :: _ => if is_quoted clean then [TStr] else [TLeaf (parse_check extra clean2)]
+        | _ :: _ => if is_quoted clean2 then [TStr] else [TLeaf (parse_check extra clean2)]
         end) ++ repeat TRp trail.
 Proof.
   intros H1 Hne H2. unfold word_tokens. rewrite H1.
   destruct clean as [|c clean']; [contradiction|].
-  rewrite H2. reflexivity.
+  rewrite H2. rewrite quote_on_clean. reflexivity.
 Qed.
 
 Lemma word_tokens_some (i : nat) (t : str) (j : nat) :
@@ -189,9 +168,7 @@ Proof.
   f_equal. f_equal. cbn [lex_token].
   destruct (mem_str (lower t) keywords); [reflexivity|].
   destruct t as [|c t']; [contradiction|].
-  destruct j as [|j].
-  - cbn [repeat]. rewrite app_nil_r, Hq. reflexivity.
-  - rewrite is_quoted_rp. reflexivity.
+  rewrite Hq. reflexivity.
 Qed.
 
 Lemma word_tokens_none (i j : nat) :
